@@ -280,6 +280,8 @@ static bool handleIntrinsic(CallBase* CB, FnCtx& fc, std::string& line) {
   Type* T = CB->getType();
   if (n.rfind("llvm.lifetime", 0) == 0 || n.rfind("llvm.dbg", 0) == 0 || n.rfind("llvm.experimental.noalias", 0) == 0 || n.rfind("llvm.invariant", 0) == 0 || n == "llvm.donothing") { line = ";"; return true; }
   if (n.rfind("llvm.assume", 0) == 0) { line = ";"; return true; }
+  if (n == "llvm.stacksave") { line = lhs + "(char*)0;"; return true; }       // variable-length arrays are heap blocks here: nothing to save / restore
+  if (n == "llvm.stackrestore") { line = ";"; return true; }
   if (n.rfind("llvm.expect", 0) == 0) { line = lhs + A(0) + ";"; return true; }
   if (n.rfind("llvm.memcpy", 0) == 0) { line = "__ir2c_memcpy(" + A(0) + ", " + A(1) + ", " + A(2) + ");"; return true; }
   if (n.rfind("llvm.memmove", 0) == 0) { line = "__ir2c_memmove(" + A(0) + ", " + A(1) + ", " + A(2) + ");"; return true; }
